@@ -60,6 +60,7 @@ def run(ck, n_gen=None):
         h.update(open(os.path.join(CACHE, "..", "lean", ".lake", "build", "bin", "driver"), "rb").read())
     except OSError:
         pass
+    h.update(open(os.path.abspath(__file__), "rb").read())   # the comparison code itself
     cpath = os.path.join(cdir, "%s-%s.json" % (repo_hash(), h.hexdigest()[:16]))
     if os.path.exists(cpath):
         return json.load(open(cpath))
@@ -117,6 +118,40 @@ def run(ck, n_gen=None):
                     defined.append(nme)
                 else:
                     referenced.add(nme)
+        # ... and the tree is a tree: a node's parent lists it among its children, and every child a node lists
+        # names that node as its parent (children = node references inside `kind: ..`, up to `parent:`)
+        seg_child, seg_parent = {}, {}
+        cur = None
+        in_parent = False
+        for i, nme in enumerate(names):
+            if nme == "static" and i + 1 < len(names) and names[i + 1].startswith("__PATTERN_NODE_"):
+                cur = names[i + 1]
+                seg_child[cur] = []
+                seg_parent[cur] = None
+                in_parent = False
+            elif cur is not None and nme == "parent":
+                in_parent = True
+            elif cur is not None and nme in ("line_start",):
+                in_parent = False
+            elif cur is not None and nme.startswith("__PATTERN_NODE_") and not (i > 0 and names[i - 1] == "static"):
+                if in_parent:
+                    seg_parent[cur] = nme
+                else:
+                    seg_child[cur].append(nme)
+            elif nme == "__PATTERN_TREE":
+                cur = None
+        tree_bad = []
+        for n_, par in seg_parent.items():
+            if par is not None and n_ not in seg_child.get(par, []):
+                tree_bad.append("%s has parent %s, which does not list it among its children %s" % (n_, par, seg_child.get(par)))
+        for n_, chs in seg_child.items():
+            for c_ in chs:
+                if seg_parent.get(c_) != n_:
+                    tree_bad.append("%s lists %s as a child, whose parent link is %s" % (n_, c_, seg_parent.get(c_)))
+            if len(chs) != len(set(chs)):
+                tree_bad.append("%s lists a child twice: %s" % (n_, chs))
+        if tree_bad:
+            mism.append(dict(text=texts[k], part="wellformed", detail="the node tree does not mirror the pattern: " + "; ".join(tree_bad[:3])))
         if len(defined) != len(set(defined)) or not referenced <= set(defined):
             mism.append(dict(text=texts[k], part="wellformed",
                              detail="node constants defined: %s; referred to but not defined: %s; defined more than once: %s" % (
